@@ -1,8 +1,18 @@
 #!/usr/bin/env python3
 """Print the two generated tables of DESIGN.md §0: per-property status (from
 harness/registry/*.json + evidence/*.json) and seeded changes vs. checks (from seeded/)."""
-import glob, json, os
+import glob, io, json, os, re, sys
 HERE = os.path.dirname(os.path.dirname(os.path.abspath(__file__)))
+_out = io.StringIO()
+_sections = {}
+def section(name):
+    """Everything printed after this call goes to DESIGN.md's <!-- BEGIN:name --> block."""
+    global _out
+    _out = io.StringIO()
+    _sections[name] = _out
+def print(*a):  # noqa: A001
+    _out.write(" ".join(str(x) for x in a) + "\n")
+section("status")
 print("| prop | theorems proved | partial obligations | quick run (seed of committed evidence): evaluations / distinct non-trivial / wall |")
 print("|---|---|---|---|")
 for path in sorted(glob.glob(os.path.join(HERE, "harness", "registry", "C*.json"))):
@@ -16,7 +26,7 @@ for path in sorted(glob.glob(os.path.join(HERE, "harness", "registry", "C*.json"
     cov = ev.get("coverage", {})
     part = "; ".join(p["name"] for p in r.get("partial", [])) or "—"
     print(f"| {pid} | {len(r.get('proved', []))} | {part} | {ev.get('tier','?')}: {cov.get('evaluations','?')} / {cov.get('distinct_nontrivial','?')} / {ev.get('wall_s','?')} s |")
-print()
+section("seeded")
 res = {}
 p = os.path.join(HERE, "seeded", "RESULTS.json")
 if os.path.exists(p):
@@ -38,3 +48,57 @@ for d in sorted(glob.glob(os.path.join(HERE, "seeded", "*", "meta.json"))):
             verdicts.append(f"{k}: {line[:40]}")
     needs = (m.get("needs") or m.get("summary") or "")[:160].replace("|", "\\|").replace("\n", " ")
     print(f"| {sid} | {m.get('property')} | {needs} | {r.get('baseline_tests','?')} | {r.get('demo_clean','-')}/{r.get('demo_mutated','-')} | {'; '.join(verdicts)} |")
+
+section("controls")
+cres = {}
+p = os.path.join(HERE, "controls", "RESULTS.json")
+if os.path.exists(p):
+    cres = {r["id"]: r for r in json.load(open(p))}
+print("| harmless rewrite | kind | what it changes | demo clean/changed | check verdicts |")
+print("|---|---|---|---|---|")
+for d in sorted(glob.glob(os.path.join(HERE, "controls", "*", "meta.json"))):
+    sid = os.path.basename(os.path.dirname(d))
+    m = json.load(open(d))
+    r = cres.get(sid, {})
+    verdicts = []
+    for k, v in r.get("checks", {}).items():
+        line = v.get("line", "")
+        if line.startswith("VIOLATION"):
+            verdicts.append(f"{k}: VIOLATION" + (" (no-failing-input-found)" if "no-failing-input-found" in line else " with replay"))
+        elif line.startswith("OK"):
+            verdicts.append(f"{k}: OK")
+        else:
+            verdicts.append(f"{k}: {line[:40]}")
+    what = (m.get("summary") or "")[:200].replace("|", "\\|").replace("\n", " ")
+    print(f"| {sid} | {m.get('kind','')} | {what} | {r.get('demo_clean','-')}/{r.get('demo_mutated','-')} | {'; '.join(verdicts)} |")
+
+section("fixed")
+kf = json.load(open(os.path.join(HERE, "known_findings.json")))
+print("| id | property (also) | /repo commit | subject | failing input before the repair |")
+print("|---|---|---|---|---|")
+for f in kf.get("fixed", []):
+    line = f.get("line", "")
+    what = line.split(f.get("commit", "\0"), 1)[-1].strip()[:300].replace("|", "\\|")
+    also = f" ({', '.join(f['also'])})" if f.get("also") else ""
+    print(f"| {f.get('id')} | {f.get('property')}{also} | `{f.get('commit')}` | {f.get('subject','').replace('|', chr(92)+'|')} | {what} |")
+section("open")
+print("| id | property | key | what fails | why recorded rather than repaired |")
+print("|---|---|---|---|---|")
+for f in kf.get("findings", []):
+    print(f"| {f.get('id')} | {f.get('property')} | `{f.get('key')}` | {f.get('what','')[:420].replace('|', chr(92)+'|')} | {f.get('why_not_fixed','')[:420].replace('|', chr(92)+'|')} |")
+
+import builtins
+if "--write" in sys.argv:
+    path = os.path.join(HERE, "DESIGN.md")
+    text = open(path).read()
+    for name, buf in _sections.items():
+        pat = re.compile(r"(<!-- BEGIN:%s -->\n).*?(<!-- END:%s -->)" % (name, name), re.S)
+        if not pat.search(text):
+            builtins.print(f"marker {name} missing in DESIGN.md")
+            continue
+        text = pat.sub(lambda m: m.group(1) + buf.getvalue() + m.group(2), text)
+    open(path, "w").write(text)
+    builtins.print("DESIGN.md tables rewritten")
+else:
+    for name, buf in _sections.items():
+        builtins.print(f"## {name}\n" + buf.getvalue())
